@@ -410,7 +410,7 @@ func runCheck(id, tier string) int {
 			wg.Add(1)
 			go func(i int) {
 				defer wg.Done()
-				rs := uint64(1) + (uint64(seed)*64+uint64(i))%(1<<62)
+				rs := uint64(1) + ((uint64(seed)*64+uint64(i))*0x9E3779B97F4A7C15)%(1<<62) // spaced: rapid derives per-case seeds as base + small offsets
 				ctx, cancel := context.WithTimeout(context.Background(), capDur)
 				defer cancel()
 				targs := fmt.Sprintf("%q -test.run '^Test' -test.timeout 0 -test.count=1 -rapid.seed=%d -rapid.nofailfile -rapid.shrinktime=20s", bin, rs)
